@@ -99,7 +99,11 @@ Section Trig.
                match snd kv with
                | Some fi =>
                    match query (a_lstat b (fst kv)) w with
-                   | Some fi' => negb (kind_eqb (fi_kind fi) (fi_kind fi'))
+                   | Some fi' =>
+                       (* an original symlink is restored whatever took its place
+                          (restoreSymlink removes it first): only files and
+                          directories are affected by D13 *)
+                       negb (kind_eqb (fi_kind fi) (fi_kind fi')) && negb (kind_eqb (fi_kind fi) KLink)
                    | None => false
                    end
                | None => false
